@@ -5,6 +5,7 @@ from __future__ import annotations
 # Standard Library Imports
 from collections import defaultdict
 from copy import deepcopy
+from datetime import timedelta
 from functools import singledispatchmethod
 from typing import TYPE_CHECKING
 
@@ -30,8 +31,7 @@ from ..estimation.debug_utils import checkThreeSigmaObservation
 from ..parallel.agent_propagation import PropagateExecutor, PropagateRegistration
 from ..parallel.estimate_prediction import EstPredictExecutor, EstPredictRegistration
 from ..parallel.estimate_update import EstUpdateExecutor, EstUpdateRegistration
-from ..physics.constants import SEC2DAYS
-from ..physics.time.stardate import JulianDate
+from ..physics.time.stardate import JulianDate, datetimeToJulianDate
 from .config.agent_config import AgentConfig, SensingAgentConfig
 
 # Type Checking Imports
@@ -281,9 +281,12 @@ class Scenario:
 
     def stepForward(self) -> None:  # noqa: C901, PLR0912
         """Propagate the simulation forward by a single timestep."""
-        prior_jd = self.current_julian_date
+        # Event query windows (prior epoch, next epoch]: both bounds are derived from the calendar epochs with the
+        # same conversion that produced the events' Julian dates, so that consecutive windows share their bound
+        # bit-for-bit (no gap, no overlap) and an event configured on a step boundary compares equal to it.
         prior_datetime = self.clock.datetime_epoch
-        next_jd = JulianDate(float(prior_jd) + self.clock.dt_step * SEC2DAYS)
+        prior_jd = datetimeToJulianDate(prior_datetime)
+        next_jd = datetimeToJulianDate(prior_datetime + timedelta(seconds=self.clock.dt_step))
         handleRelevantEvents(
             self,
             self.database,
@@ -347,7 +350,7 @@ class Scenario:
                 self.database,
                 EventScope.OBSERVATION_GENERATION,
                 prior_jd,
-                self.clock.julian_date_epoch,
+                next_jd,
             )
             for event in relevant_events:
                 event.handleEvent(self.sensor_agents[event.scope_instance_id])
